@@ -185,22 +185,23 @@ Definition kron_dst_reshape (ls rs : list Z) : list Z := shape_tile ls rs.
 
 (* ---------- diagonal.hpp ---------- *)
 (* shape_diagonal: the extents of the other axes in order, then
-   min( offset<0 ? n1+offset : n1 , offset>0 ? n2-offset : n2 )   (not clamped at 0) *)
+   src_i = min( offset<0 ? n1+offset : n1 , offset>0 ? n2-offset : n2 );  src_i = src_i < 0 ? 0 : src_i *)
 Definition remove_axes (s : list Z) (a1 a2 : nat) : list Z :=
   map (fun i => nth i s 0) (filter (fun i => negb ((i =? a1)%nat || (i =? a2)%nat)) (seq 0 (length s))).
 Definition diag_extent (s : list Z) (off : Z) (a1 a2 : nat) : Z :=
   let n1 := nth a1 s 0 in let n2 := nth a2 s 0 in
-  Z.min (if off <? 0 then n1 + off else n1) (if 0 <? off then n2 - off else n2).
+  let e := Z.min (if off <? 0 then n1 + off else n1) (if 0 <? off then n2 - off else n2) in
+  if e <? 0 then 0 else e.
 Definition shape_diagonal (s : list Z) (off : Z) (a1 a2 : nat) : list Z :=
   remove_axes s a1 a2 ++ [diag_extent s off a1 a2].
 (* index::diagonal: the leading coordinates of i fill the other axes in order;
-   result[axis1] = i[-1]; result[axis2] = i[-1] + offset *)
+   result[axis1] = i[-1] + (offset < 0 ? -offset : 0); result[axis2] = i[-1] + (offset > 0 ? offset : 0) *)
 Fixpoint diag_fill (axes : list nat) (a1 a2 : nat) (i : list Z) (d : Z) (off : Z) : list Z :=
   match axes with
   | [] => []
   | ax :: t =>
-      if (ax =? a2)%nat then (d + off) :: diag_fill t a1 a2 i d off
-      else if (ax =? a1)%nat then d :: diag_fill t a1 a2 i d off
+      if (ax =? a2)%nat then (d + (if 0 <? off then off else 0)) :: diag_fill t a1 a2 i d off
+      else if (ax =? a1)%nat then (d + (if off <? 0 then - off else 0)) :: diag_fill t a1 a2 i d off
       else match i with
            | x :: i' => x :: diag_fill t a1 a2 i' d off
            | [] => 0 :: diag_fill t a1 a2 [] d off
@@ -439,16 +440,12 @@ Definition kron (sa sb : list Z) (fa fb : list Z -> A) : res view :=
   lift (v_reshape d (kron_dst_reshape sa sb)))).
 
 (* ---------- view::diagonal / view::trace ----------
-   axis1/axis2 are normalised with unwrap(normalize_axis) (out of range: Trap).
-   The length of the diagonal is stored in an unsigned shape: a negative value is a huge extent (Trap when
-   used); a negative offset makes index::diagonal produce coordinate d+offset < 0 on axis2: out of range. *)
+   axis1/axis2 are normalised with unwrap(normalize_axis) (out of range: Trap).  (After the repair
+   fixes/C16_diagonal_offset.diff: either sign of the offset, length clamped at 0.) *)
 Definition diagonal (s : list Z) (f : list Z -> A) (off ax1 ax2 : Z) : res view :=
   match norm_axis (length s) ax1, norm_axis (length s) ax2 with
   | Some a1, Some a2 =>
-      let e := diag_extent s off a1 a2 in
       if (length s <? 2)%nat || (a1 =? a2)%nat then Trap
-      else if e <? 0 then Trap
-      else if (off <? 0) && (0 <? e) then Trap
       else Ok (View (shape_diagonal s off a1 a2) (fun i => f (diagonal_idx s i off a1 a2)))
   | _, _ => Trap
   end.
